@@ -64,6 +64,13 @@ def corpus():
     cs.append(("corpus-plus-nobuf-default", ["buf 6162", "snew", "splusv 0 P:0:0:2", "splusc 0 99", "splusv 0 N"]))
     cs.append(("corpus-plus-nobuf-detached", ["buf 6162", "spl 0 0 2", "sdetach 0", "splusv 0 P:0:0:2", "splusv 0 S:0", "splusc 0 0"]))
     cs.append(("corpus-plus-nobuf-wide", ["char 4", "buf 0000006100010061", "snew", "splusv 0 P:0:0:2", "splusc 0 97"]))
+    # seeded (r7): basic_string(Allocator, view) delegating to basic_string{view.data(), allocator}: the view's length is
+    # dropped and the source re-measured with strlen (sub-view, embedded NUL, unterminated exact-size buffer)
+    cs.append(("corpus-ctor-alloc-view-subview", ["buf 61626364", "sviewa P:0:1:2", "buf 6162636400", "sviewa P:1:0:2", "sviewa P:1:4:0"]))
+    cs.append(("corpus-ctor-alloc-view-nul", ["buf 6100626300", "sviewa P:0:0:4", "sviewa P:0:1:3", "sviewa N", "sviewa S:0"]))
+    cs.append(("corpus-ctor-overloads", ["buf 6162006300", "scsa 0 0", "scsa 0 3", "spla 0 1 3", "spla 0 5 0", "sfill0 3", "sfill0 0",
+                                         "sviewa C:0:0", "sviewa S:2", "scmp 0 1"]))
+    cs.append(("corpus-ctor-overloads-wide", ["char 2", "buf 00610062000000630000", "scsa 0 0", "spla 0 1 3", "sviewa P:0:0:4", "sviewa P:0:1:1", "sfill0 2"]))
     # assorted
     cs.append(("corpus-self-alias", ["buf 616200", "scs 0 0", "sappv 0 S:0", "sassign 0 0", "sswap 0 0", "splusv 0 S:0", "scmp 0 1", "hs 0"]))
     cs.append(("corpus-null-views", ["eq N N", "ff N 0 0", "fl N 0", "ffo N N 0", "sub N 0 0", "sw N N", "ew N V:0", "num u8 N", "hv N",
@@ -86,6 +93,9 @@ def pair_case(cid, a, b, ct="1"):
           "sappv 1 %s" % A, "sassign 0 1", "scmp 0 1", "hs 0", "hv S:1", "hv %s" % A]
     if lb:
         ls += ["ffo %s %s 1" % (A, B), "sappc 0 %d" % b[0], "splusc 1 %d" % b[-1]]
+    ls += ["sviewa %s" % A, "sviewa %s" % B, "spla 1 0 %d" % lb, "scsa 3 0", "sfill0 %d" % la]
+    if la > 1:
+        ls += ["sviewa P:0:1:%d" % (la - 1), "sviewa P:0:0:%d" % (la - 1), "sviewa P:2:0:%d" % (la - 1)]
     ls += ["smove 0", "scmp 0 1", "sappv 0 %s" % B, "smovea 1 0", "spush 0 0", "sbyvalm 1", "scopy 1", "sresize 1 %d" % la]
     if ct != "1":
         ls = [l for l in ls if not l.startswith("scmpc")]
@@ -194,6 +204,13 @@ def unary_cases(prefix, a, ct="1"):
             ls.append("sub %s %d %d" % (A, fr, sz))
     ls += ["spl 0 0 %d" % la, "scopy 0", "sresize 0 %d" % (la + 2), "sresize 1 %d" % max(0, la - 1), "sresize 1 0",
            "spush 0 0", "spush 0 97", "sfill %d 98" % la, "scmp 0 2", "sdetach 0", "sdel 1", "snew", "sassign 3 2", "sassign 2 0"]
+    # every constructor overload, incl. the allocator-first compatibility ones, on the whole text, on every sub-view of the
+    # exact-size (unterminated) buffer and on views of the NUL-terminated copy
+    ls += ["sviewa %s" % A, "sviewa P:1:0:%d" % la, "sviewa P:1:0:%d" % (la + 1), "spla 0 0 %d" % la, "scsa 1 0", "sfill0 %d" % la]
+    for fr in range(la + 1):
+        for sz in range(la - fr + 1):
+            if (fr, sz) != (0, la):
+                ls.append("sviewa P:0:%d:%d" % (fr, sz))
     out = [(prefix + "-ops", ls)]
     # requests outside the view: each ends the case in the assertion hook
     k = 0
